@@ -140,9 +140,61 @@ impl Gen for OwnedDataModelType {
 #[derive(Debug, Serialize)]
 #[serde(transparent)]
 pub struct StaticSchema(pub &'static DataModelType);
+/// a hand-written static schema that mentions every DataModelType and Data kind
+pub const EVERY_KIND: &DataModelType = &DataModelType::Tuple(&[
+    &DataModelType::Bool,
+    &DataModelType::I8,
+    &DataModelType::U8,
+    &DataModelType::I16,
+    &DataModelType::I32,
+    &DataModelType::I64,
+    &DataModelType::I128,
+    &DataModelType::U16,
+    &DataModelType::U32,
+    &DataModelType::U64,
+    &DataModelType::U128,
+    &DataModelType::Usize,
+    &DataModelType::Isize,
+    &DataModelType::F32,
+    &DataModelType::F64,
+    &DataModelType::Char,
+    &DataModelType::String,
+    &DataModelType::ByteArray,
+    &DataModelType::Option(&DataModelType::Usize),
+    &DataModelType::Unit,
+    &DataModelType::Seq(&DataModelType::Isize),
+    &DataModelType::Map { key: &DataModelType::String, val: &DataModelType::Schema },
+    &DataModelType::Struct { name: "U", data: postcard_schema::schema::Data::Unit },
+    &DataModelType::Struct { name: "N", data: postcard_schema::schema::Data::Newtype(&DataModelType::Isize) },
+    &DataModelType::Struct { name: "T", data: postcard_schema::schema::Data::Tuple(&[&DataModelType::Usize, &DataModelType::Schema]) },
+    &DataModelType::Struct {
+        name: "Cursor",
+        data: postcard_schema::schema::Data::Struct(&[
+            &postcard_schema::schema::NamedField { name: "offset", ty: &DataModelType::Usize },
+            &postcard_schema::schema::NamedField { name: "delta", ty: &DataModelType::Isize },
+        ]),
+    },
+    &DataModelType::Enum {
+        name: "E",
+        variants: &[
+            &postcard_schema::schema::Variant { name: "A", data: postcard_schema::schema::Data::Unit },
+            &postcard_schema::schema::Variant { name: "B", data: postcard_schema::schema::Data::Newtype(&DataModelType::Usize) },
+            &postcard_schema::schema::Variant { name: "C", data: postcard_schema::schema::Data::Tuple(&[]) },
+            &postcard_schema::schema::Variant {
+                name: "D",
+                data: postcard_schema::schema::Data::Struct(&[&postcard_schema::schema::NamedField { name: "x", ty: &DataModelType::Isize }]),
+            },
+        ],
+    },
+    &DataModelType::Schema,
+]);
+
 impl Gen for StaticSchema {
     fn gen(s: &mut Src) -> Self {
         let all: &[&'static DataModelType] = &[
+            EVERY_KIND,
+            &DataModelType::Usize,
+            &DataModelType::Isize,
             <u8 as Schema>::SCHEMA,
             <Demo as Schema>::SCHEMA,
             <AllForms as Schema>::SCHEMA,
@@ -156,7 +208,7 @@ impl Gen for StaticSchema {
         StaticSchema(all[s.below(all.len())])
     }
     fn extremes() -> Vec<Self> {
-        vec![StaticSchema(<AllForms as Schema>::SCHEMA)]
+        vec![StaticSchema(EVERY_KIND), StaticSchema(<AllForms as Schema>::SCHEMA), StaticSchema(&DataModelType::Usize), StaticSchema(&DataModelType::Isize)]
     }
 }
 impl Schema for StaticSchema {
@@ -304,6 +356,55 @@ impl Gen for Tree2 {
     }
     fn extremes() -> Vec<Self> {
         vec![Tree2::Leaf(255), Tree2::Node(vec![])]
+    }
+}
+
+/// zero-sized in memory, one byte on the wire
+#[derive(Serialize, Deserialize, Schema, MaxSize, Debug, Clone, Copy, PartialEq)]
+pub enum OneVariant {
+    Only,
+}
+impl Gen for OneVariant {
+    fn gen(_: &mut Src) -> Self {
+        OneVariant::Only
+    }
+    fn extremes() -> Vec<Self> {
+        vec![OneVariant::Only]
+    }
+}
+
+/// more than 16 variants, the largest payloads late in the list
+#[derive(Serialize, Deserialize, Schema, MaxSize, Debug, Clone, PartialEq)]
+pub enum WideEnum {
+    V0, V1, V2, V3, V4, V5, V6, V7, V8, V9, V10, V11, V12, V13, V14, V15,
+    V16(u32),
+    V17, V18, V19, V20, V21, V22, V23, V24, V25, V26, V27, V28, V29, V30, V31,
+    V32 { a: u64, b: i128 },
+    V33(u8),
+    V34([u16; 4], char),
+}
+impl Gen for WideEnum {
+    fn gen(s: &mut Src) -> Self {
+        match s.below(8) {
+            0 => WideEnum::V0,
+            1 => WideEnum::V15,
+            2 => WideEnum::V16(Gen::gen(s)),
+            3 => WideEnum::V31,
+            4 => WideEnum::V32 { a: Gen::gen(s), b: Gen::gen(s) },
+            5 => WideEnum::V33(Gen::gen(s)),
+            6 => WideEnum::V34(Gen::gen(s), Gen::gen(s)),
+            _ => WideEnum::V20,
+        }
+    }
+    fn extremes() -> Vec<Self> {
+        vec![
+            WideEnum::V32 { a: u64::MAX, b: i128::MIN },
+            WideEnum::V16(u32::MAX),
+            WideEnum::V34([u16::MAX; 4], '\u{10FFFF}'),
+            WideEnum::V33(255),
+            WideEnum::V0,
+            WideEnum::V31,
+        ]
     }
 }
 
@@ -485,6 +586,22 @@ pub fn types() -> Vec<CorpusType> {
     v.push(base::<heapless07::String<16384>>("heapless07::String<16384>").max::<heapless07::String<16384>>(true));
     v.push(base::<heapless08::Vec<u32, 8>>("heapless08::Vec<u32,8>").schema::<heapless08::Vec<u32, 8>>().de::<heapless08::Vec<u32, 8>>().json());
     v.push(base::<heapless08::String<16>>("heapless08::String<16>").schema::<heapless08::String<16>>().de::<heapless08::String<16>>().json());
+    // capacities whose length prefix sits at a varint boundary (zero-sized elements keep them cheap)
+    v.push(base::<heapless07::Vec<(), 127>>("heapless07::Vec<(),127>").max::<heapless07::Vec<(), 127>>(true));
+    v.push(base::<heapless07::Vec<(), 128>>("heapless07::Vec<(),128>").max::<heapless07::Vec<(), 128>>(true));
+    v.push(base::<heapless07::Vec<(), 16383>>("heapless07::Vec<(),16383>").max::<heapless07::Vec<(), 16383>>(true));
+    v.push(base::<heapless07::Vec<(), 16384>>("heapless07::Vec<(),16384>").max::<heapless07::Vec<(), 16384>>(true));
+    v.push(base::<heapless07::Vec<(), 2097151>>("heapless07::Vec<(),2097151>").max::<heapless07::Vec<(), 2097151>>(true));
+    v.push(base::<heapless07::Vec<(), 2097152>>("heapless07::Vec<(),2097152>").max::<heapless07::Vec<(), 2097152>>(true));
+    v.push(base::<heapless07::Vec<(), 3000000>>("heapless07::Vec<(),3000000>").max::<heapless07::Vec<(), 3000000>>(true));
+    v.push(base::<heapless07::Vec<(), 4194303>>("heapless07::Vec<(),4194303>").max::<heapless07::Vec<(), 4194303>>(true));
+    v.push(base::<heapless07::Vec<(), 4194304>>("heapless07::Vec<(),4194304>").max::<heapless07::Vec<(), 4194304>>(true));
+    // elements that are zero-sized in memory but not on the wire, handed to the serializer by reference
+    v.push(base::<heapless07::Vec<OneVariant, 4>>("heapless07::Vec<OneVariant,4>").schema::<heapless07::Vec<OneVariant, 4>>().max::<heapless07::Vec<OneVariant, 4>>(true).de::<heapless07::Vec<OneVariant, 4>>().json());
+    v.push(base::<Vec<OneVariant>>("Vec<OneVariant>").schema::<Vec<OneVariant>>().de::<Vec<OneVariant>>().json());
+    v.push(base::<[OneVariant; 3]>("[OneVariant; 3]").schema::<[OneVariant; 3]>().max::<[OneVariant; 3]>(true).de::<[OneVariant; 3]>().json());
+    v.push(base::<heapless07::Vec<UnitS, 3>>("heapless07::Vec<UnitS,3>").schema::<heapless07::Vec<UnitS, 3>>().de::<heapless07::Vec<UnitS, 3>>());
+    full!(v, WideEnum, bounded);
     // third-party impls
     full!(v, uuid::Uuid, schema_nojson);
     full!(v, chrono::DateTime<chrono::Utc>, schema);
